@@ -21,7 +21,19 @@ def system_level(ctx, binary, projects, limit):
         r2 = t = same_spelling = None
         if c[0] == 0:
             stem = e[:-3]
-            os.rename(os.path.join(d2, stem + ".mmm"), os.path.join(d2, stem + ".transpiled.mmm"))
+            # (hunt2 D7) step 1 must leave a file that step 2 accepts: `transpile` reads `<stem>.transpiled.mmm` (the name the
+            # help text of `compile --output-format` promises) and writes `<stem>.mmm`.  A compiler that puts the text under the
+            # name of the executable file is reported below; the file is then renamed so that the rest of the pipeline is
+            # still compared
+            wrote_text_as = TEXT_NAME_OK
+            if not os.path.exists(os.path.join(d2, stem + ".transpiled.mmm")):
+                wrote_text_as = stem + ".mmm" if os.path.exists(os.path.join(d2, stem + ".mmm")) else None
+                if wrote_text_as:
+                    os.rename(os.path.join(d2, stem + ".mmm"), os.path.join(d2, stem + ".transpiled.mmm"))
+            elif os.path.exists(os.path.join(d2, stem + ".mmm")):
+                # a second file under the binary's name is no defect, but `execute` below must run what `transpile` writes
+                os.remove(os.path.join(d2, stem + ".mmm"))
+            c = c + (wrote_text_as,)
             t = programs.run_bin(binary, ["transpile", sp(how, d2, stem + ".transpiled.mmm")], d2)
             if t[0] == 0:
                 r2 = programs.run_bin(binary, ["execute", sp(how_x, d2, stem + ".mmm")], d2)
@@ -43,10 +55,22 @@ def system_level(ctx, binary, projects, limit):
     single = matrix + c04.failing_and_colliding_programs() + [p for p in projects if len(p["files"]) == 1 and "import" not in list(p["files"].values())[0]]
     res = programs.pmap(one, single[:limit + len(matrix)])
     n = n_mixed = 0
+    named = False
     for proj, r1, c, t, r2, same_spelling in res:
         if c[0] != 0:
             continue
         n += 1
+        if c[3] is not TEXT_NAME_OK and not named:
+            named = True                     # one report (the first program in the fixed order of `single`), not one per program
+            stem = proj["entry"][:-3]
+            ctx.report("raw-text-output-not-accepted-by-transpile",
+                       "`mscript compile %s --output-format raw-text` succeeds and leaves %s; `mscript transpile` takes `%s.transpiled.mmm` (and refuses `%s.mmm`): "
+                       "the three steps of the pipeline cannot be chained" % (proj["entry"], "the text form in `%s`, the name of the executable file" % c[3] if c[3] else "no bytecode file at all", stem, stem),
+                       {"project": proj, "how": "mscript compile %s --quick --output-format raw-text; ls; mscript transpile %s.transpiled.mmm; mscript execute %s.mmm" % (proj["entry"], stem, stem),
+                        "expected": "%s.transpiled.mmm holds the text form (mscript compile --help: `.transpiled.mmm` human-readable bytecode, or `.mmm` machine code)" % stem,
+                        "observed_text_file": c[3]})
+        if t is None:
+            continue
         if t[0] != 0:
             ctx.report("transpile-fails:" + proj["name"], "transpile rejects the compiler's own raw-text output for %s" % proj["name"],
                        {"project": proj, "stderr": t[2][-1500:]})
@@ -68,6 +92,9 @@ def system_level(ctx, binary, projects, limit):
                        {"project": proj, "run": {"rc": r1[0], "stdout": r1[1][-2000:]}, "pipeline": {"rc": r2[0], "stdout": r2[1][-2000:], "stderr": r2[2][-1000:]}})
     ctx.cov["programs_executed_under_another_path_spelling"] = n_mixed
     return n
+
+
+TEXT_NAME_OK = "<stem>.transpiled.mmm"
 
 
 def sp_name(how, f):
@@ -98,6 +125,10 @@ def transpile_in_place(ctx, binary):
         c = programs.run_bin(binary, ["compile", stem + ".ms", "--quick", "--output-format", "raw-text"], d)
         res = []
         if c[0] == 0:
+            # the text form is in <stem>.transpiled.mmm (or, hunt2 D7, under the name of the binary: reported by system_level).
+            # The probes below want it under <stem>.mmm, the name that is NOT a transpilation source
+            if os.path.exists(os.path.join(d, stem + ".transpiled.mmm")):
+                shutil.move(os.path.join(d, stem + ".transpiled.mmm"), os.path.join(d, stem + ".mmm"))
             text = open(os.path.join(d, stem + ".mmm"), "rb").read()
             # (source path given to transpile, path of the binary form it derives)
             targets = [(stem + ".mmm", stem + ".mmm")]
